@@ -15,7 +15,7 @@ package test
 
 // ---- panics become errors ------------------------------------------------------------------------------------------
 //@ func panicError
-//@   ensures [C20.panic] r == nil ==> (result == nil <==> err == nil)
+//@   ensures [C20.panic] r == nil ==> sameErr(result, err)
 //@   ensures [C20.panic] r != nil ==> result != nil
 
 // ---- the error predicates: true exactly when the predicate is met, and a failure is reported exactly otherwise ----------
@@ -39,3 +39,139 @@ package test
 //@   ensures [C20.pred] err == nil ==> reported()
 //@   ensures [C20.pred] err != nil && !reValid(*regexpPattern) ==> reported()
 //@   ensures [C20.unmatched] err != nil && reValid(*regexpPattern) && !reMatches(*regexpPattern, errMsg(err)) ==> reported()
+
+// ---- unknown callees: panics are turned into errors ------------------------------------------------------------------
+// ucall(k, i): i-th result of the k-th call of an unknown callee made by the function (here: the marshaler, the hook).
+//@ func safeMarshalText
+//@   ensures [C20.panic] panicked() ==> err != nil
+//@   ensures [C20.panic] !panicked() ==> sameSlice(data, ucall(0, 0)) && sameErr(err, ucall(0, 1))
+//@ func safeMarshalBinary
+//@   ensures [C20.panic] panicked() ==> err != nil
+//@   ensures [C20.panic] !panicked() ==> sameSlice(data, ucall(0, 0)) && sameErr(err, ucall(0, 1))
+//@ func safeMarshalJSON
+//@   ensures [C20.panic] panicked() ==> err != nil
+//@   ensures [C20.panic] !panicked() ==> sameSlice(data, ucall(0, 0)) && sameErr(err, ucall(0, 1))
+//@ func safeUnmarshalText
+//@   assigns heap
+//@   ensures [C20.panic] panicked() ==> err != nil
+//@   ensures [C20.panic] !panicked() ==> sameErr(err, ucall(0, 0))
+//@ func safeUnmarshalBinary
+//@   assigns heap
+//@   ensures [C20.panic] panicked() ==> err != nil
+//@   ensures [C20.panic] !panicked() ==> sameErr(err, ucall(0, 0))
+//@ func safeUnmarshalJSON
+//@   assigns heap
+//@   ensures [C20.panic] panicked() ==> err != nil
+//@   ensures [C20.panic] !panicked() ==> sameErr(err, ucall(0, 0))
+//@ func callForCase
+//@   assigns *c
+//@   ensures [C20.panic] f == nil ==> result == nil
+//@   ensures [C20.panic] f != nil && panicked() ==> result != nil
+//@   ensures [C20.panic] f != nil && !panicked() ==> sameErr(result, ucall(0, 0))
+
+// ---- assumed contract of every error predicate handed to the helpers (proved above for the library's own five, with
+// the known exception D9): it does not panic, and it reports a failure exactly when it returns false
+//@ func type:AssertErrorFunc
+//@   opt nopanic
+//@   assigns reports
+//@   ensures reported() <==> !result
+
+// ---- support for value and pointer types ---------------------------------------------------------------------------------
+// castToFunc gives a conversion function exactly when T or *T has the interface; the conversion functions themselves
+// (its two closures) never panic and never return a nil interface.
+//@ func castToFunc
+//@   ensures [C20.iface] result != nil <==> implementsV(T, I) || implementsP(T, I)
+//@ func castToFunc$1
+//@   requires t != nil && implementsV(T, I)
+//@   ensures [C20.iface] result != nil
+//@ func castToFunc$2
+//@   requires t != nil && implementsP(T, I)
+//@   ensures [C20.iface] result != nil
+// The conversion function kept in the helpers' variable f is one of those two closures (assumed: the verifier does
+// not track which function a loop-carried function variable holds).
+//@ func var:f
+//@   opt nopanic
+//@   ensures result != nil
+// helperNew / helperAssertEmpty / helperAssertEqual: what "empty" and "equal" mean is the TypeHelper's (or testify's)
+// business; they are assumed not to panic, and only the assertions may report.
+//@ func method:TypeHelper.New
+//@   opt nopanic
+//@ func method:TypeHelper.AssertEmpty
+//@   opt nopanic
+//@   assigns reports
+//@ func method:TypeHelper.AssertEqual
+//@   opt nopanic
+//@   assigns reports
+//@ func helperNew
+//@   trusted
+//@ func helperAssertEmpty
+//@   assigns reports
+//@ func helperAssertEqual
+//@   assigns reports
+
+// ---- the helpers, one iteration at a time -----------------------------------------------------------------------------
+// A case is satisfied when both hooks return nil and either (a predicate is expected) the predicate accepts the error
+// and nothing came with it, or (none is expected) there is no error and the result is the expected one.
+//@ pure func hooksOK(before error, after error) bool = before == nil && after == nil
+//@ pure func forMarshal(k Constraint) bool = k == 0 || k == OnlyMarshal
+//@ pure func forUnmarshal(k Constraint) bool = k == 0 || k == OnlyUnmarshal
+//@ pure func marshalTextOK(hasPred bool, predOK bool, b []byte, err error, want string) bool = ite(hasPred, predOK && isNilSlice(b), err == nil && want == b)
+//@ pure func bytesEqual(want []byte, b []byte) bool = ite(isNilSlice(want) || isNilSlice(b), isNilSlice(want) && isNilSlice(b), want == b)
+//@ pure func marshalBinaryOK(hasPred bool, predOK bool, b []byte, err error, want []byte) bool = ite(hasPred, predOK && isNilSlice(b), err == nil && bytesEqual(want, b))
+//@ pure func unmarshalOK(hasPred bool, predOK bool, emptyReported bool, err error, equalReported bool) bool = ite(hasPred, predOK && !emptyReported, err == nil && !equalReported)
+
+//@ func MarshalText
+//@   assigns reports
+//@   loop 0 invariant rangeindex >= -1 && (rangeindex == -1 || rangeindex < len(cases))
+//@   loop 0 invariant [C20.empty] rangeindex == -1 ==> !reported()
+//@   loop 0 step [C20.iter] implementsV(T, encoding.TextMarshaler) ==> (reportedInStep() <==> forMarshal(cases[rangeindex].Constraint) && !(hooksOK(callres("callForCase", 0), callres("callForCase", 1)) && marshalTextOK(local("c").Error != nil, callres("dyn", 0), callres("safeMarshalText", 0, 0), callres("safeMarshalText", 0, 1), local("c").Data)))
+//@   ensures [C20.empty] len(cases) == 0 ==> !reported()
+//@   ensures [C20.iface] len(cases) > 0 && !implementsV(T, encoding.TextMarshaler) ==> reported()
+//@   loop 0 invariant [C20.iface] implementsV(T, encoding.TextMarshaler) || rangeindex == -1
+//@ func MarshalJSON
+//@   assigns reports
+//@   loop 0 invariant rangeindex >= -1 && (rangeindex == -1 || rangeindex < len(cases))
+//@   loop 0 invariant [C20.empty] rangeindex == -1 ==> !reported()
+//@   loop 0 step [C20.iter] implementsV(T, json.Marshaler) ==> (reportedInStep() <==> forMarshal(cases[rangeindex].Constraint) && !(hooksOK(callres("callForCase", 0), callres("callForCase", 1)) && marshalTextOK(local("c").Error != nil, callres("dyn", 0), callres("safeMarshalJSON", 0, 0), callres("safeMarshalJSON", 0, 1), local("c").Data)))
+//@   ensures [C20.empty] len(cases) == 0 ==> !reported()
+//@   ensures [C20.iface] len(cases) > 0 && !implementsV(T, json.Marshaler) ==> reported()
+//@   loop 0 invariant [C20.iface] implementsV(T, json.Marshaler) || rangeindex == -1
+//@ func MarshalBinary
+//@   assigns reports
+//@   loop 0 invariant rangeindex >= -1 && (rangeindex == -1 || rangeindex < len(cases))
+//@   loop 0 invariant [C20.empty] rangeindex == -1 ==> !reported()
+//@   loop 0 step [C20.iter] implementsV(T, encoding.BinaryMarshaler) ==> (reportedInStep() <==> forMarshal(cases[rangeindex].Constraint) && !(hooksOK(callres("callForCase", 0), callres("callForCase", 1)) && marshalBinaryOK(local("c").Error != nil, callres("dyn", 0), callres("safeMarshalBinary", 0, 0), callres("safeMarshalBinary", 0, 1), local("c").Data)))
+//@   ensures [C20.empty] len(cases) == 0 ==> !reported()
+//@   ensures [C20.iface] len(cases) > 0 && !implementsV(T, encoding.BinaryMarshaler) ==> reported()
+//@   loop 0 invariant [C20.iface] implementsV(T, encoding.BinaryMarshaler) || rangeindex == -1
+
+// Unmarshal helpers: "the value is empty / equal" is judged by helperAssertEmpty / helperAssertEqual; the clause says
+// that the iteration reports exactly when the case applies and a hook fails, or the predicate is not met, or the error
+// is unexpected, or that judgement (which must have been asked for) reports.
+//@ func UnmarshalText
+//@   assigns reports
+//@   loop 0 invariant rangeindex >= -1 && (rangeindex == -1 || rangeindex < len(cases))
+//@   loop 0 invariant [C20.empty] rangeindex == -1 ==> !reported()
+//@   loop 0 invariant rangeindex >= 0 ==> f != nil
+//@   loop 0 step [C20.iter] implementsV(T, encoding.TextUnmarshaler) || implementsP(T, encoding.TextUnmarshaler) ==> (reportedInStep() <==> forUnmarshal(cases[rangeindex].Constraint) && !(hooksOK(callres("callForCase", 0), callres("callForCase", 1)) && unmarshalOK(local("c").Error != nil, callres("dyn", 1), callReported("helperAssertEmpty", 0), callres("safeUnmarshalText", 0), callReported("helperAssertEqual", 0))))
+//@   ensures [C20.empty] len(cases) == 0 ==> !reported()
+//@   ensures [C20.iface] len(cases) > 0 && !(implementsV(T, encoding.TextUnmarshaler) || implementsP(T, encoding.TextUnmarshaler)) ==> reported()
+//@   loop 0 invariant [C20.iface] implementsV(T, encoding.TextUnmarshaler) || implementsP(T, encoding.TextUnmarshaler) || rangeindex == -1
+//@ func UnmarshalBinary
+//@   assigns reports
+//@   loop 0 invariant rangeindex >= -1 && (rangeindex == -1 || rangeindex < len(cases))
+//@   loop 0 invariant [C20.empty] rangeindex == -1 ==> !reported()
+//@   loop 0 invariant rangeindex >= 0 ==> f != nil
+//@   loop 0 step [C20.iter] implementsV(T, encoding.BinaryUnmarshaler) || implementsP(T, encoding.BinaryUnmarshaler) ==> (reportedInStep() <==> forUnmarshal(cases[rangeindex].Constraint) && !(hooksOK(callres("callForCase", 0), callres("callForCase", 1)) && unmarshalOK(local("c").Error != nil, callres("dyn", 1), callReported("helperAssertEmpty", 0), callres("safeUnmarshalBinary", 0), callReported("helperAssertEqual", 0))))
+//@   ensures [C20.empty] len(cases) == 0 ==> !reported()
+//@   ensures [C20.iface] len(cases) > 0 && !(implementsV(T, encoding.BinaryUnmarshaler) || implementsP(T, encoding.BinaryUnmarshaler)) ==> reported()
+//@   loop 0 invariant [C20.iface] implementsV(T, encoding.BinaryUnmarshaler) || implementsP(T, encoding.BinaryUnmarshaler) || rangeindex == -1
+//@ func UnmarshalJSON
+//@   assigns reports
+//@   loop 0 invariant rangeindex >= -1 && (rangeindex == -1 || rangeindex < len(cases))
+//@   loop 0 invariant [C20.empty] rangeindex == -1 ==> !reported()
+//@   loop 0 invariant rangeindex >= 0 ==> f != nil
+//@   loop 0 step [C20.iter] implementsV(T, json.Unmarshaler) || implementsP(T, json.Unmarshaler) ==> (reportedInStep() <==> forUnmarshal(cases[rangeindex].Constraint) && !(hooksOK(callres("callForCase", 0), callres("callForCase", 1)) && unmarshalOK(local("c").Error != nil, callres("dyn", 1), callReported("helperAssertEmpty", 0), callres("safeUnmarshalJSON", 0), callReported("helperAssertEqual", 0))))
+//@   ensures [C20.empty] len(cases) == 0 ==> !reported()
+//@   ensures [C20.iface] len(cases) > 0 && !(implementsV(T, json.Unmarshaler) || implementsP(T, json.Unmarshaler)) ==> reported()
+//@   loop 0 invariant [C20.iface] implementsV(T, json.Unmarshaler) || implementsP(T, json.Unmarshaler) || rangeindex == -1
